@@ -38,6 +38,23 @@ type Ctx struct {
 	cgVTA    bool
 	domCache map[*ssa.Function]*domInfo
 	summ     map[string]map[*ssa.Function]bool
+	imports  map[string]*Report
+}
+
+// runCached runs a property's rule set once per loaded configuration; shared
+// rules (importRules, importCodec) read the cached obligations.
+func (c *Ctx) runCached(pc *propCheck, config string) *Report {
+	if c.imports == nil {
+		c.imports = map[string]*Report{}
+	}
+	if t, ok := c.imports[pc.id]; ok {
+		return t
+	}
+	tmp := newReport(pc.id)
+	tmp.configActive = config
+	c.imports[pc.id] = tmp // (set first: a cyclic import sees the partial report instead of recursing)
+	pc.run(c, tmp)
+	return tmp
 }
 
 func loadRepo(repo, tier, goos, goarch string) (*Ctx, error) {
@@ -385,6 +402,11 @@ func (r *Report) finish(verifDir, tier string, seed int, configs []string, start
 		if o.NonTrivial && !distinct[o.Rule+"\x00"+o.Key] {
 			distinct[o.Rule+"\x00"+o.Key] = true
 			nNon++
+		}
+	}
+	if os.Getenv("BISQ_DUMP") != "" {
+		for _, o := range r.Obls {
+			fmt.Printf("OBL %s [%s] %s %s\n", o.Rule, o.Key, o.Status, o.Pos)
 		}
 	}
 	// replay files + VIOLATION lines
